@@ -40,6 +40,36 @@ CHECKS = {
          "IBond/IAngle/IDihedral gradients, LJ126/LJG/CBSPL parameter derivatives and Cubic/Akima/Lin spline derivatives are evaluated on ~6e4 (quick) / 3e6 (thorough) generated geometries, parameter vectors and data sets and compared with numerical derivatives of the value the same object reports. Held-on-observed.",
          "Trusted: finite-difference oracle with its own error estimate (cases whose estimate is too large are skipped and counted); singular geometries excluded by the margins in DESIGN §5 C07.",
          "DESIGN.md §5 C07"),
+ "C08": ("exploration",
+         "runtime monitoring: write->read round-trip monitors through the real TrjWriterFactory/TrjReaderFactory/TopReaderFactory, Table and imcio code (oracle = the original in-memory data within half a unit of the format's last printed digit), file-level parsers where a reader rejects its writer, atom-count-mismatch frames must raise; csg_map --no-map conversion chains; ASan/UBSan, one process per DL_POLY case",
+         "gro, xyz, pdb, LAMMPS dump, DL_POLY, xml topology, tables and IMC matrices/index files are round-tripped for ~4e3 (quick) / 1e5 (thorough) generated configurations (1..200 beads, both signs within field widths, orthorhombic and triclinic boxes, 1..6 frames, with/without velocities and forces); every format x aspect has its own structural key (format_matrix in the evidence). Held-on-observed, with the recorded known findings.",
+         "Trusted: per-format precision model; names compared as far as the format stores them; time stamps not judged; known findings listed in known_findings.json (LAMMPS tilt factors, pdb triclinic box, table error column).",
+         "DESIGN.md §5 C08"),
+ "C09": ("exploration",
+         "runtime monitoring: the real DavidsonSolver (xtp TU compiled stand-alone, ASan for sizes <= 200, -O2 above) on generated symmetric / BSE-form matrices and matrix-free operators, judged against dense Eigen diagonalisation (order, normalisation, orthogonality, recomputed residual, lowest roots, status honesty, bounded progress in iterations)",
+         "559 (quick) / 6255 (thorough) solves over sizes 2..1000, neigen 1..size/4, all 24 combinations of correction x update size x tolerance, search-space limits forcing restarts, clustered/degenerate/negative/wide spectra, HAM mode; a fixed deterministic set of adversarial instances runs on every invocation under its own keys (known findings). Held-on-observed on the randomised families.",
+         "Trusted: Eigen dense solvers as oracle; the progress clause is judged only with the default search-space limit; randomised families are those for which the 'lowest roots' clause held over a multi-seed soak, adversarial instances are fixed (DESIGN §5 C09).",
+         "DESIGN.md §5 C09"),
+ "C14": ("exploration",
+         "runtime monitoring: exact-measure monitor of the real GNode/huffmanTree lookup (evaluated at every internal threshold +-1 ulp, 0, 1 and interval mid-points; no sampling), Marcus-rate relations (positivity, J^2 scaling, detailed balance incl. field and outer-sphere terms) on constructed QMPair objects, waiting-time law through the real KMCCalculator::Promotetime; ASan/UBSan",
+         "17e3 (quick) / 1.2e6 (thorough) evaluations: event lists of length 1..100 with rates over 12 orders of magnitude; the total length of the set of random numbers selecting each event equals rate/escape rate, every p in [0,1] selects an event; rate relations over energies, reorganisation energies, couplings, fields, temperatures, carrier types. Held-on-observed.",
+         "Trusted: private tree thresholds read in the harness TU only; sign convention of the field term recorded in DESIGN §5 C14; QMCalculator pieces needing libint2 are stubbed in the harness for kmccalculator.cc.",
+         "DESIGN.md §5 C14"),
+ "C15": ("exploration",
+         "runtime monitoring: symmetry / rigid-motion invariance monitors and an explicit point-charge-cluster Coulomb oracle (Richardson-extrapolated cluster size) for the real eeInteractor on generated Static/PolarSite objects; field = dE/dmu by finite differences; Thole tensor relations; ASan/UBSan",
+         "2.4e4 (quick) / 1e6 (thorough) site pairs over separations 0.5..100 bohr, all rank combinations 0/1/2 x 0/1/2, moments over 4 orders of magnitude. Held-on-observed.",
+         "Trusted: the point-charge cluster construction of dipoles and traceless quadrupoles; tolerances from the measured extrapolation error (worst 3e-9 x scale vs 5e-7 allowed).",
+         "DESIGN.md §5 C15"),
+ "C17": ("exploration",
+         "runtime monitoring: write/close/reopen/read histories on real HDF5 checkpoint files through CheckpointFile/Writer/Reader (bit-identity by memcmp incl. -0.0, denormals, inf, NaN payloads; shapes; overwrite sequences; unwritten names; READ-level files byte-identical after refused writes); ASan/UBSan, one process per edge family",
+         "3.4e4 (quick) / 1e6 (thorough) evaluations over all supported kinds, nested group paths and overwrite histories; edge families (different-shape / different-kind overwrite, empty shapes, pre-filled destinations) have their own keys (known findings for the missing delete-then-create). Held-on-observed.",
+         "Trusted: system HDF5 1.10; a read into a fresh destination from a fresh handle is what 'bit-identical' is judged on.",
+         "DESIGN.md §5 C17"),
+ "C20": ("exploration",
+         "runtime monitoring, exhaustive enumeration: UnitConverter::convert over all ordered pairs and triples of every enum, all tools::conv constants vs embedded CODATA 2018 / SI values, cross-table agreement (conv vs UnitConverter vs factors applied by the I/O modules, observed through one-bead round trips), Elements getters vs an embedded periodic table; ASan/UBSan",
+         "2286 evaluations, the finite space is enumerated completely (exhaustive: true): 212 unit pairs, 1128 triples, derived-unit quotients, 14 constants, 29 I/O factors, 71 element symbols x 9 checks. UnitConverter identities to 1e-12, everything else to four significant digits as the statement says.",
+         "Trusted: the embedded reference values (CODATA 2018, IUPAC masses); either calorie definition is accepted against the reference, only the disagreement between two places in the library is flagged.",
+         "DESIGN.md §5 C20"),
  "C11": ("exploration",
          "runtime monitoring: independent Python (ElementTree) model of the documented option merge compared with the real OptionsHandler on every shipped calculator description; fault-injected negative inputs; XML print/load round-trip and as<T> literal-table monitors in-process under ASan/UBSan; votca_property executable",
          "The real OptionsHandler::ProcessUserInput/CalculatorOptions run on all 27 shipped xtp calculators (9 linked sub-packages) x generated user inputs (random leaf subsets, list multiplicities, one injected fault per negative case) and the resolved trees / error texts are compared with the model; random property trees over a metacharacter alphabet are printed and re-loaded. Held-on-observed.",
